@@ -48,6 +48,7 @@ class HoldAnalysis(RuleAnalysis):
         self.sync_timeouts = sync_timeouts
         self.check_raisers = True
         self.packet_vars: set[str] = set()  # names holding a *packet* (any Python value, None and falsy values included)
+        self.empty_is_data = False  # datagram semantics: an empty payload is a datagram like any other, `if not data` releases nothing
 
     def initial(self, fn: FunctionInfo):
         return [frozenset()]
@@ -233,7 +234,7 @@ class HoldAnalysis(RuleAnalysis):
                 elif isinstance(t.ops[0], ast.IsNot) and isinstance(c, ast.Constant) and c.value is None:
                     tr, fl = [held], [held - {left.id}]
                     return (fl, tr) if neg else (tr, fl)
-        if name is not None and name in held and empty_when_false:
+        if name is not None and name in held and empty_when_false and not self.empty_is_data:
             tr, fl = [held], [held - {name}]
             return (fl, tr) if neg else (tr, fl)
         return [fact], [fact]
